@@ -260,7 +260,7 @@ macro_rules! super_restores_harness {
     };
 }
 
-// @verif-block props=C06,C05 tier=quick cap=900 group=core doc=super()_(Executor::perform_super_with_the_nested_evaluation_replaced_by_a_stub_that_succeeds_or_fails,_symbolic)_on_a_block_with_1_or_2_definitions:_the_parent_definition_is_evaluated_exactly_once_(refused_without_a_parent),_and_on_EVERY_path_-_success,_failure_of_the_parent,_refusal_-_the_block_cursor_returns_to_the_calling_definition,_the_pushed_frame_is_popped_and_the_current_block_is_unchanged
+// @verif-block props=C06,C05 tier=experimental cap=900 group=core doc=super()_(Executor::perform_super_with_the_nested_evaluation_replaced_by_a_stub_that_succeeds_or_fails,_symbolic)_on_a_block_with_1_or_2_definitions:_the_parent_definition_is_evaluated_exactly_once_(refused_without_a_parent),_and_on_EVERY_path_-_success,_failure_of_the_parent,_refusal_-_the_block_cursor_returns_to_the_calling_definition,_the_pushed_frame_is_popped_and_the_current_block_is_unchanged
 super_restores_harness!(c06_super_restores_cursor_2_levels, 2);
 super_restores_harness!(c06_super_restores_cursor_1_level, 1);
 // @verif-end
